@@ -159,6 +159,15 @@ def call_cases(draw, policies=ALL_POLICIES, max_tasks=6, max_pools=2, max_worker
                     sched.append({"graph": g["name"], "job": n, "pool": draw(st.integers(0, 2)), "worker": draw(st.integers(0, 2)),
                                   "strategy": draw(st.integers(0, 2)), "at": at})
                     placed[n] = at + max_runtime
+    retracted = []
+    if plan_ahead_children:
+        # an earlier plan that was withdrawn (Task.unschedule: a skipped or retracted placement): the task is RELEASED / VIRTUAL
+        # again and nothing of the withdrawn plan may count any more
+        busy = {(r["graph"], r["job"]) for r in run + sched} | {tuple(c) for c in completed}
+        for g in graphs:
+            for j in g["jobs"]:
+                if (g["name"], j["name"]) not in busy and draw(st.integers(0, 3)) == 0:
+                    retracted.append({"graph": g["name"], "job": j["name"], "strategy": draw(st.integers(0, 2))})
     pol = draw(policy_spec(pname, batching=batching))
     if pol.get("batching"):
         for p in profiles:
@@ -171,7 +180,7 @@ def call_cases(draw, policies=ALL_POLICIES, max_tasks=6, max_pools=2, max_worker
             for s_ in p["strategies"]:
                 s_["batch"] = draw(st.sampled_from([1, 1, 2]))
     return {"seed": draw(st.integers(0, 9999)), "now": now, "cluster": cluster, "profiles": profiles, "graphs": graphs, "completed": completed,
-            "running": run, "scheduled": sched, "policy": pol}
+            "running": run, "scheduled": sched, "retracted": retracted, "policy": pol}
 
 
 # ----------------------------------------------------------------------------- invocation
